@@ -130,14 +130,15 @@ def run(ck):
             seen.add(tuple(h))
             longs.append(h)
     picked = hists + longs[: (250 if quick else 4000)]
-    wb = World()
-    pb, _ = probe_all(wb, False)         # the twin: a fresh environment that only sees the probes
+    # the twin: a fresh environment that only sees the probes (two execution orders of the probe suite)
+    pbs = {o: probe_all(World(), False, o)[0] for o in (0, 1)}
     evs = []
     for k, h in enumerate(picked):
         wa = World()
         run_history(wa, wa.good_calls(), h)
-        pa, rep = probe_all(wa, True)
-        evs.append({"id": k, "kind": "twin", "h": h, "pa": pa, "pb": pb, "rep": rep})
+        order = 1 if ck.rng.random() < 0.5 else 0
+        pa, rep = probe_all(wa, True, order)
+        evs.append({"id": k, "kind": "twin", "h": h, "pa": pa, "pb": pbs[order], "rep": rep})
         ck.count()
         if h:
             ck.nontrivial(tuple(h))
